@@ -355,6 +355,9 @@ def v7_selection(ctx):
                     obs['drain'] = (r['start'], r['end'])
                     obs['insert'] = (r['start'], args[2])
                 return ('sym', 'splice')
+            if re.search(r'Option::<.*>::(map|map_or|unwrap_or|and_then|filter|or_else)$', path):
+                from .. import absstr as _abs
+                return _abs.std_model(m, path, args, t)          # combinators on the Option a lookup handed back
             return NotImplemented
 
         m = Machine(u, model, order_only=inner['body'])
